@@ -1,7 +1,7 @@
 #!/bin/bash
 # Runs every claimed check (tier $1, default quick) in /verif against /repo and records the exit codes.
 TIER=${1:-quick}
-cd /verif
+cd "$(dirname "$0")/.."
 OUT=/tmp/run_all_$TIER.out
 : > $OUT
 for p in $(python3 -c "import json; print(' '.join(c['property_id'] for c in json.load(open('MANIFEST.json'))['checks']))"); do
